@@ -1099,6 +1099,24 @@ for prefix in ("", "wh/t1"):
             be.write_file_cas("data/a.parquet", b"again", None); bad.append("create-if-absent over existing accepted")
         except CASConflictError: pass
         if be.read_file("data/a.parquet") != b"new": bad.append("CAS content")
+        # a conditional PUT that LANDS while the client sees a 5xx: one request only, and the outcome must not be reported as a conflict
+        import botocore.exceptions
+        _d, etag2 = be.read_file_with_etag("data/a.parquet")
+        seen = {"puts": 0}
+        def after(op, kw, resp):
+            if op == "put_object":
+                seen["puts"] += 1
+                if seen["puts"] == 1:
+                    raise botocore.exceptions.ClientError({"Error": {"Code": "InternalError", "Message": "injected"}, "ResponseMetadata": {"HTTPStatusCode": 500}}, "PutObject")
+        be.s3.after = after
+        try:
+            be.write_file_cas("data/a.parquet", b"landed", etag2); bad.append("a 5xx on the conditional PUT was swallowed")
+        except CASConflictError:
+            bad.append("conditional PUT retried after an ambiguous failure: its own first write made the retry fail, reported as a CONFLICT although the write landed")
+        except Exception:
+            pass
+        be.s3.after = None
+        if seen["puts"] != 1: bad.append(("conditional PUT issued more than once", seen["puts"]))
         be.delete_file("data/a.parquet"); lo.delete_file("data/a.parquet")
         if be.exists("data/a.parquet") or lo.exists("data/a.parquet"): bad.append("delete")
     finally:
@@ -1112,3 +1130,13 @@ for _ne in (True, False):
     _t = "prefix" if _ne else "noprefix"
     for _n, _hf, _fs in _BACKEND_UNITS:
         register(Unit(P, f"{_n}-{_t}", _hf(_ne), functions=[f"{SB}:S3StorageBackend.{x}" for x in _fs], replay=_replay_backend))
+
+
+
+def register_cas_map_under(prop):
+    """the CAS-MAP units are also part of C04 (an ambiguous pointer write must surface as ambiguous: the conditional PUT is never
+    retried) and of C08 (a delayed pointer write cannot lose an update)"""
+    for _ne in (True, False):
+        _t = "prefix" if _ne else "noprefix"
+        register(Unit(prop, f"CAS-MAP/S3StorageBackend.write_file_cas-{_t}", h_write_file_cas(_ne), functions=[f"{SB}:S3StorageBackend.write_file_cas"],
+                      replay=_replay_backend, reg_factory=registry))
